@@ -7,6 +7,8 @@ import (
 	"encoding/json"
 	"fmt"
 	"hash/fnv"
+
+	"github.com/goptics/varmq/vrt"
 )
 
 // Payload is the job data type used by all coop episodes. N is the job's
@@ -14,6 +16,16 @@ import (
 type Payload struct {
 	N int    `json:"n"`
 	S string `json:"s,omitempty"`
+}
+
+// MarshalJSON is user code that runs inside Add on persistent/distributed queues: it yields, so two
+// producers' serializations can interleave (a library that shares an encoder between them shows).
+func (p Payload) MarshalJSON() ([]byte, error) {
+	vrt.Point("Payload.MarshalJSON")
+	type plain Payload
+	b, err := json.Marshal(plain(p))
+	vrt.Point("Payload.MarshalJSON")
+	return b, err
 }
 
 // outcome kinds of the worker function for a job
